@@ -10,28 +10,8 @@
 (* is silent, the type it infers for the result must be the type of the    *)
 (* run-time value.  Expression trees of depth 2 compose the table.         *)
 (***************************************************************************)
-EXTENDS Integers, Sequences, FiniteSets, TLC, Json
+EXTENDS Integers, Sequences, FiniteSets, TLC, Json, PyTable
 CONSTANTS Types, BinOps, CmpOps, Depth2, Shapes
-
-Num(t) == t \in {"int", "float", "bool"}
-Seq_(t) == t \in {"list", "tuple"}
-NumResult(op, l, r) == IF op = "/" THEN "float"
-                       ELSE IF "float" \in {l, r} THEN "float" ELSE "int"
-Py(op, l, r) ==
-    CASE op = "**" /\ Num(l) /\ r = "float" -> "valuedep"    \* a negative base gives a complex result
-      [] op \in {"+", "-", "*", "/", "//", "%", "**"} /\ Num(l) /\ Num(r) -> NumResult(op, l, r)
-      [] op \in {"<<", ">>", "|", "^", "&"} /\ l \in {"int", "bool"} /\ r \in {"int", "bool"} ->
-            (IF op \in {"|", "^", "&"} /\ l = "bool" /\ r = "bool" THEN "bool" ELSE "int")
-      [] op = "+" /\ l = r /\ l \in {"str", "list", "tuple"} -> l
-      [] op = "*" /\ l \in {"str", "list", "tuple"} /\ r \in {"int", "bool"} -> l
-      [] op = "*" /\ r \in {"str", "list", "tuple"} /\ l \in {"int", "bool"} -> r
-      [] op = "%" /\ l = "str" -> "valuedep"           \* string formatting: depends on the text
-      [] op \in {"==", "!=", "is", "is not"} -> "bool"
-      [] op \in {"<", "<=", ">", ">="} /\ Num(l) /\ Num(r) -> "bool"
-      [] op \in {"<", "<=", ">", ">="} /\ l = r /\ l \in {"str", "list", "tuple"} -> "bool"
-      [] op \in {"in", "not in"} /\ r \in {"list", "tuple"} -> "bool"
-      [] op \in {"in", "not in"} /\ r = "str" /\ l = "str" -> "bool"
-      [] OTHER -> "err"
 
 VARIABLES e, verdict
 vars == <<e, verdict>>
